@@ -46,6 +46,7 @@ type Ctx struct {
 	fileSrc     map[string][]byte
 	boundsCache map[*ssa.Function]*linAn
 	encCl       *encClosure
+	addrTk      map[*ssa.Function]bool
 	escCache    map[string][]escLine
 	thorough    bool
 }
@@ -653,6 +654,54 @@ func (c *Ctx) srcLine(pos token.Pos) string {
 	return ""
 }
 
+// addrTaken: module functions used as values (stored, passed, bound) anywhere in the program.
+func (c *Ctx) addrTaken() map[*ssa.Function]bool {
+	if c.addrTk != nil {
+		return c.addrTk
+	}
+	c.addrTk = map[*ssa.Function]bool{}
+	for fn := range c.allFns {
+		for _, b := range fn.Blocks {
+			for _, ins := range b.Instrs {
+				var callee ssa.Value
+				if ci, ok := ins.(ssa.CallInstruction); ok {
+					callee = ci.Common().Value
+				}
+				for _, op := range ins.Operands(nil) {
+					if *op == nil {
+						continue
+					}
+					f, ok := (*op).(*ssa.Function)
+					if !ok {
+						continue
+					}
+					if *op == callee {
+						// called directly here; still counts as a value when it also appears among the arguments
+						isArg := false
+						if ci, ok := ins.(ssa.CallInstruction); ok {
+							for _, a := range ci.Common().Args {
+								if a == *op {
+									isArg = true
+								}
+							}
+						}
+						if !isArg {
+							continue
+						}
+					}
+					c.addrTk[f] = true
+				}
+				if mc, ok := ins.(*ssa.MakeClosure); ok {
+					if f, ok := mc.Fn.(*ssa.Function); ok {
+						c.addrTk[f] = true
+					}
+				}
+			}
+		}
+	}
+	return c.addrTk
+}
+
 // reachableFrom computes the set of functions reachable from roots in the call graph, not crossing `stop` nodes
 // and not following edges for which skipEdge returns true.
 func (c *Ctx) reachableFrom(roots []*ssa.Function, skipEdge func(e *callgraph.Edge) bool) map[*ssa.Function]bool {
@@ -677,6 +726,11 @@ func (c *Ctx) reachableFrom(roots []*ssa.Function, skipEdge func(e *callgraph.Ed
 		}
 		for _, e := range n.Out {
 			if skipEdge != nil && skipEdge(e) {
+				continue
+			}
+			// a function whose address is never taken cannot be the target of a call through a function value
+			// (refines CHA, which matches dynamic calls by signature only)
+			if e.Site != nil && e.Site.Common().StaticCallee() == nil && !e.Site.Common().IsInvoke() && c.InModule(e.Callee.Func) && !c.addrTaken()[e.Callee.Func] {
 				continue
 			}
 			if !seen[e.Callee.Func] {
